@@ -38,6 +38,35 @@ type oblOut struct {
 	obl     *Obl
 }
 
+// lockName: the identity of an obligation for the vacuity guard. Only obligations that come from a contract clause are locked,
+// and by clause, not by call-site or instruction ordinal, so that harmless edits of the code do not rename them.
+func lockName(fk string, o *Obl) string {
+	n := o.Name
+	switch o.Kind {
+	case "post", "lemma", "inv-entry", "dec":
+	case "inv-step":
+		if i := strings.Index(n, "/e"); i >= 0 {
+			n = n[:i]
+		}
+	case "site", "crash":
+		// site@Callee#k.j -> site@Callee.j
+		if i := strings.Index(n, "#"); i >= 0 {
+			if j := strings.Index(n[i:], "."); j >= 0 {
+				n = n[:i] + n[i+j:]
+			}
+		}
+	case "ret":
+		if i := strings.Index(n, "#"); i >= 0 {
+			if j := strings.Index(n[i:], "."); j >= 0 {
+				n = n[:i] + n[i+j:]
+			}
+		}
+	default:
+		return ""
+	}
+	return fk + ":" + n
+}
+
 func shortKey(full string) string {
 	return strings.TrimPrefix(full, repoModule+"/")
 }
@@ -210,7 +239,9 @@ func runCheck(repo, verif, prop, tier string, seed int, timeout time.Duration, s
 			oo := &oblOut{Name: fk + ":" + o.Name, Func: fk, Kind: o.Kind, Status: r.Status, Solver: r.Solver, Secs: r.Secs, Bytes: r.Bytes,
 				Pos: fmt.Sprintf("%s:%d", strings.TrimPrefix(o.Pos.Filename, repo+"/"), o.Pos.Line), Note: o.Note, file: r.File, output: r.Output, expect: o.Expect, rep: rep, obl: o}
 			outs = append(outs, oo)
-			generated[oo.Name] = true
+			if ln := lockName(fk, o); ln != "" {
+				generated[ln] = true
+			}
 		}
 	}
 	// verdicts
